@@ -77,6 +77,8 @@ void oracle_misuse_op(const Op& op) {
     verify_all_live("after a detected overflow");
   }
   else if (op.code == OP_corrupt_free_link) {
+    // writing into a freed block is only a free-list corruption while its page exists: another live block keeps the area alive
+    if (!has_live_neighbour(b->p, b->usable, b->heap, b)) { H.ops_noop++; return; }
     block_verify(b, "before the corruption"); model_remove(b); H.slots[b->slot] = nullptr;
     void* p = b->p; const size_t req = b->req; const int mh = b->heap; delete b;
     mi_free(p);
